@@ -1,6 +1,7 @@
 import Ptk.Proto
 import Ptk.Gen.PyChars
-import Ptk.Model.C01
+import Ptk.Gen.C01
+import Ptk.Model.C01All
 open Ptk Ptk.Py Ptk.Proto Ptk.C01
 
 /-- the transform callback used by the correspondence harness: ASCII swapcase -/
@@ -19,9 +20,17 @@ def asciiTitle (t : Text) : Text :=
     else if c.isAlpha then ((if acc.2 then c.toLower else c.toUpper) :: acc.1, true)
     else (c :: acc.1, false)) ([], false)).1.reverse
 
+/-- the environment of the model: runtime tables and constants regenerated from /repo -/
+def env (f : Text → Text) : Env :=
+  { isSpace := Gen.isSpace, reSpace := Gen.reSpace, isBreak := Gen.isLineBreak, f := f,
+    hsBefore := Gen.C01.hspaceBefore, hsAfter := Gen.C01.hspaceAfter,
+    commentPrefix := Gen.C01.commentPrefix, commentArg := Gen.C01.commentArg,
+    killWordNegFixed := Gen.C01.killWordNegFixed,
+    reshapeDefaultWidth := Gen.C01.reshapeDefaultWidth }
+
 def parseOp : List String → Option Op
   | ["ins", d, o, m] => do pure (.insert (← decStr d) (← decBool o) (← decBool m))
-  | ["del", n] => do pure (.delete (← decNat n))
+  | ["del", n] => do pure (.delete (← decInt n))
   | ["delb", n] => do pure (.deleteBefore (← decNat n))
   | ["nl", c] => do pure (.newline (← decBool c))
   | ["above", c] => do pure (.lineAbove (← decBool c))
@@ -39,41 +48,164 @@ def parseOp : List String → Option Op
   | ["si", d, a] => do pure (.selfInsert (← decStr d) (← decInt a))
   | ["tc"] => some .transposeChars
   | ["setdoc", t, c] => do pure (.setDoc (← decStr t) (← decInt c))
+  | ["jsl", o, sp] => do pure (.joinSelected (← decNat o) (← decStr sp))
   | _ => none
 
-def stepLine (b : Buf) (toks : List String) : Buf × String :=
+/-- an op line -> the operation and the callback it runs with -/
+def parseOp2 (toks : List String) : Option (Op2 × (Text → Text)) :=
+  match toks with
+  | ["uw", n] => do pure (.base (.trWords (← decInt n).toNat), asciiUpper)
+  | ["lw", n] => do pure (.base (.trWords (← decInt n).toNat), asciiLower)
+  | ["cw", n] => do pure (.base (.trWords (← decInt n).toNat), asciiTitle)
+  | ["kw", a] => do pure (.killWord (← decInt a), swapCase)
+  | ["rub", a, w] => do pure (.rubout (← decInt a) (← decBool w), swapCase)
+  | ["kl", a] => do pure (.killLine (← decInt a), swapCase)
+  | ["uld"] => some (.lineDiscard, swapCase)
+  | ["dhs"] => some (.delHSpace, swapCase)
+  | ["qi", d] => do pure (.quotedInsert (← decStr d), swapCase)
+  | ["ic", a] => do pure (.insertComment (← decInt a), swapCase)
+  | ["rotext", t] => do pure (.roText (← decStr t), swapCase)
+  | ["rosetdoc", bp, t, c] => do pure (.roSetDoc (← decBool bp) (← decStr t) (← decInt c), swapCase)
+  | ["rs", x, y, w] => do pure (.reshape (← decInt x) (← decInt y) (← decNat w), swapCase)
+  | _ => (parseOp toks).map fun o => (.base o, swapCase)
+
+/-- readline command name + numeric argument (+ key data) -> the operation of the model -/
+def opOfCommand (name : String) (arg : Int) (data : Text) : Option (Op2 × (Text → Text)) :=
+  if name == "backward-delete-char" then some (.base (.backwardDeleteChar arg), swapCase)
+  else if name == "delete-char" then some (.base (.deleteChar arg), swapCase)
+  else if name == "self-insert" then some (.base (.selfInsert data arg), swapCase)
+  else if name == "transpose-chars" then some (.base .transposeChars, swapCase)
+  else if name == "uppercase-word" then some (.base (.trWords arg.toNat), asciiUpper)
+  else if name == "downcase-word" then some (.base (.trWords arg.toNat), asciiLower)
+  else if name == "capitalize-word" then some (.base (.trWords arg.toNat), asciiTitle)
+  else if name == "kill-word" then some (.killWord arg, swapCase)
+  else if name == "unix-word-rubout" then some (.rubout arg true, swapCase)
+  else if name == "backward-kill-word" then some (.rubout arg false, swapCase)
+  else if name == "kill-line" then some (.killLine arg, swapCase)
+  else if name == "unix-line-discard" then some (.lineDiscard, swapCase)
+  else if name == "delete-horizontal-space" then some (.delHSpace, swapCase)
+  else if name == "insert-comment" then some (.insertComment arg, swapCase)
+  else none
+
+/-- the command a key sequence is bound to: the LAST registered binding wins -/
+def commandOfKey (key : String) : Option String :=
+  ((Gen.C01.namedBindings.filter fun p => p.1 == key).getLast?).map (·.2)
+
+def parseArgKeys (t : Text) : List ArgKey :=
+  t.filterMap fun c => if c = '-' then some .dash
+    else if c.isDigit then some (.digit (c.toNat - '0'.toNat)) else none
+
+structure DState where
+  h : HBuf
+  cs : CState
+  fc : DCache
+  fcSize : Nat
+
+def DState.init : DState :=
+  { h := { work := [[]], idx := 0, cur := 0, dcache := [] },
+    cs := { heap := [], tmap := [], docs := [] }, fc := [], fcSize := 10 }
+
+def bufLine (h : HBuf) (r : Text) : String := s!"{encStr h.text} {h.cur} {encStr r}"
+def histLine (h : HBuf) : String := s!"{h.idx} {h.cur} {encList encStr h.work}"
+
+/-- canonical form of the sharing of `_cache` objects between the live documents: for each
+    document the position of the first live document holding the same cell -/
+def sharing (s : CState) : List Nat :=
+  s.docs.map fun d => (s.docs.findIdx? fun d' => d'.addr == d.addr).getD 0
+
+def decStrs : List String → Option (List Text)
+  | [] => some []
+  | t :: ts => do pure ((← decStr t) :: (← decStrs ts))
+
+def stepLine (s : DState) (toks : List String) : DState × String :=
+  let applyOp (o : Op2) (f : Text → Text) (showRet : Bool) : DState × String :=
+    let r := step2 (env f) s.h.buf o
+    let h' := s.h.edit r.1
+    ({ s with h := h' }, bufLine h' (if showRet then r.2 else []))
   match toks with
   | ["init", t, c] =>
     match decStr t, decNat c with
-    | some t, some c => ({ text := t, cur := c }, s!"{encStr t} {c} s:")
-    | _, _ => (b, "bad-op")
-  | ["jsl", o, sp] =>
-    match decNat o, decStr sp with
-    | some o, some sp =>
-      let b' := joinSelectedLines Gen.isLineBreak b o sp
-      (b', s!"{encStr b'.text} {b'.cur} s:")
-    | _, _ => (b, "bad-op")
-  | [w, n] =>
-    let f? : Option (Text → Text) :=
-      if w == "uw" then some asciiUpper else if w == "lw" then some asciiLower
-      else if w == "cw" then some asciiTitle else none
-    match f?, decInt n with
-    | some f, some n =>
-      let b' := transformWords Gen.reSpace f n.toNat b
-      (b', s!"{encStr b'.text} {b'.cur} s:")
-    | _, _ =>
-      match parseOp toks with
-      | some op =>
-        let (b', r) := step Gen.isSpace swapCase b op
-        -- the readline commands return None; only the Buffer methods return the deleted text
-        let r := if w == "bdc" || w == "dc" then [] else r
-        (b', s!"{encStr b'.text} {b'.cur} {encStr r}")
-      | none => (b, "bad-op")
+    | some t, some c =>
+      let h : HBuf := { work := [t], idx := 0, cur := c, dcache := [] }
+      ({ s with h := h }, bufLine h [])
+    | _, _ => (s, "bad-op")
+  | "hinit" :: idx :: cur :: lines =>
+    match decNat idx, decNat cur, decStrs lines with
+    | some idx, some cur, some lines =>
+      let h : HBuf := { work := lines, idx := idx, cur := cur, dcache := [] }
+      ({ s with h := h }, histLine h)
+    | _, _, _ => (s, "bad-op")
+  | ["goto", i] =>
+    match decNat i with
+    | some i => let h := s.h.goToHistory i; ({ s with h := h }, histLine h)
+    | none => (s, "bad-op")
+  | ["hback", n] =>
+    match decInt n with
+    | some n => let h := s.h.historyBackward n; ({ s with h := h }, histLine h)
+    | none => (s, "bad-op")
+  | ["hfwd", n] =>
+    match decInt n with
+    | some n => let h := s.h.historyForward n; ({ s with h := h }, histLine h)
+    | none => (s, "bad-op")
+  | ["hreset", t, c] =>
+    match decStr t, decNat c with
+    | some t, some c => let h := s.h.reset t (min c t.length); ({ s with h := h }, histLine h)
+    | _, _ => (s, "bad-op")
+  | ["hq"] => (s, histLine s.h)
+  | ["doc"] =>
+    -- the `document` view: through the modelled FastDictCache
+    let r := s.h.document Gen.C01.documentCacheSize
+    ({ s with h := r.1 }, s!"{encStr r.2.text} {r.2.cur}")
+  | ["e2e", key, argKeys, data] =>
+    match decStr argKeys, decStr data with
+    | some ak, some data =>
+      let arg := argOfKeys Gen.C01.argClamp Gen.C01.argClampTo (parseArgKeys ak)
+      match (commandOfKey key).bind fun name => opOfCommand name arg data with
+      | some (o, f) => applyOp o f false
+      | none => (s, "unbound")
+    | _, _ => (s, "bad-op")
+  | ["e2eqi", d] =>
+    match decStr d with
+    | some d => applyOp (.quotedInsert d) swapCase false
+    | none => (s, "bad-op")
+  | ["argv", argKeys] =>
+    match decStr argKeys with
+    | some ak => (s, toString (argOfKeys Gen.C01.argClamp Gen.C01.argClampTo (parseArgKeys ak)))
+    | none => (s, "bad-op")
+  -- standalone FastDictCache
+  | ["fcinit", n] =>
+    match decNat n with
+    | some n => ({ s with fc := [], fcSize := n }, "ok")
+    | none => (s, "bad-op")
+  | ["fcget", t, c] =>
+    match decStr t, decNat c with
+    | some t, some c =>
+      let hit := (dlookup s.fc (t, c)).isSome
+      let r := dget s.fcSize s.fc (t, c)
+      ({ s with fc := r.1 },
+       s!"{encBool hit} {encStr r.2.text} {r.2.cur} {encList (fun p : DKey × Doc => encStr p.1.1 ++ ":" ++ toString p.1.2) r.1}")
+    | _, _ => (s, "bad-op")
+  -- shared line tables
+  | ["cinit"] => ({ s with cs := { heap := [], tmap := [], docs := [] } }, "ok")
+  | ["cnew", t, c] =>
+    match decStr t, decNat c with
+    | some t, some c => let cs := s.cs.newDoc t c; ({ s with cs := cs }, encList toString (sharing cs))
+    | _, _ => (s, "bad-op")
+  | ["clines", i] =>
+    match decNat i with
+    | some i => let r := s.cs.getLines i; ({ s with cs := r.1 }, encList encStr r.2)
+    | none => (s, "bad-op")
+  | ["cidx", i] =>
+    match decNat i with
+    | some i => let r := s.cs.getIndexes i; ({ s with cs := r.1 }, encList toString r.2)
+    | none => (s, "bad-op")
+  | ["cdrop", i] =>
+    match decNat i with
+    | some i => let cs := s.cs.dropDoc i; ({ s with cs := cs }, encList toString (sharing cs))
+    | none => (s, "bad-op")
   | _ =>
-    match parseOp toks with
-    | some op =>
-      let (b', r) := step Gen.isSpace swapCase b op
-      (b', s!"{encStr b'.text} {b'.cur} {encStr r}")
-    | none => (b, "bad-op")
+    match parseOp2 toks with
+    | some (o, f) => applyOp o f true
+    | none => (s, "bad-op")
 
-def main : IO Unit := runS stepLine { text := [], cur := 0 }
+def main : IO Unit := runS stepLine DState.init
